@@ -152,7 +152,7 @@ theorem tracked_loops_keep_bookkeeping (ae : Bool) (endTok : Option Nat) (T : Li
     (lexValueLoop ae endTok fuel l r esc a b = some (l', a', b') →
       l'.core = l.core ∧ ∃ p', Pend l' endTok p' ∧ Tr l.inp T p' a' b') ∧
     (blockLoop fuel l r a b = some (l', a', b') →
-      l'.core = l.core ∧ l'.peek 1 = some 47 ∧ ∃ p', Pend l' (some 42) p' ∧ Tr l.inp T p' a' b') :=
+      l'.core = l.core ∧ l'.peek 1 = some 47 ∧ ∃ p', Pend l' (some 42) p' ∧ Tr l.inp T p' a' b' ∧ p ≤ p') :=
   ⟨value_loop ae endTok T fuel l r esc a b p l' a' b' hp htr,
    block_loop T fuel l r a b p l' a' b' hp htr⟩
 
